@@ -225,7 +225,12 @@ def check_config(ctx, F, tag, views=True):
         # size_of::<u64>() bytes accepts a two-word value cut after its first word (C06.R2)
         import c06
         c06.check_config(Relabel(ctx, {"C06.R2.basic.serializable-load": "C14.R8.fixed-size-load-reads-the-whole-value",
-                                       "C06.R2.basic.vec-load": "C14.R8.vector-load-reads-the-whole-body"}), F, tag)
+                                       "C06.R2.basic.vec-load": "C14.R8.vector-load-reads-the-whole-body",
+                                       # an optional structure is skipped by the word count in its header, which is the value's
+                                       # size_in_elements(): a size smaller than what is written lets a file cut inside the
+                                       # structure's last words be skipped with Ok
+                                       "C06.R2.size-sums-written-items": "C14.R9.skipped-size-is-the-written-size",
+                                       "C06.R2.size-constants": "C14.R9.skipped-size-constants"}), F, tag)
         # (borrowed) a file cut inside its last element is refused by the map itself: every view constructor bounds what it reads
         # by map.len(), which counts whole elements only behind this guard (C18.R3)
         import c18
